@@ -394,7 +394,12 @@ class PSBaseParser:
         j = m.start(0)
         self._curtoken += s[i:j]
         try:
-            self._add_token(float(self._curtoken))
+            number = float(self._curtoken)
+            # A real number that overflows to infinity is dropped like a
+            # malformed number: nothing can be computed with it.
+            if number in (float("inf"), float("-inf")):
+                raise ValueError(self._curtoken)
+            self._add_token(number)
         except ValueError:
             pass
         self._parse1 = self._parse_main
